@@ -33,7 +33,7 @@ P1_KINDS += [('bind', None, op, '') for op in ('', ':', '?', '*', '+')]
 P1_KINDS += [('bind', None, op, t) for op in (':', '?', '*', '+') for t in ('str', 'unicode', 'int', 'float')]
 
 P2_KINDS = [('lit', 'a')] + [('bind', None, op, t) for op in (':', '?', '*', '+') for t in ('str', 'int')]
-P2_SEGS = ['a', 'b-1', '1', '+ 2', '1.5', u'\xe9', '0', 'a\n', '1\n', '%41']
+P2_SEGS = ['a', 'b-1', '1', '+ 2', '1.5', u'\xe9', '0', 'a\n', '1\n']
 
 INVALID_EXTRA = ['a', 'a/b', '', '//', '/a//b', '/a//', '//a', '/<x>/<x>', '/<x>/a/<x+int>', '/<x:foo>', '/<x?bar>',
                  '/<x!>', '/<x?:int>', '/<x**>', '/<x+?>', '/<x~int>', '/<x:int>//', '/a/<x^>', '/<x:INT>', '/<x:Int>',
